@@ -30,6 +30,12 @@ WHY = {  # finding id (or prefix) -> why it is listed instead of repaired
  "C15-matrix-model-nonidentity-geometry": "consequence of DESIGN #23 (get_matrix ignores the geometry); the closed-form route would have to assemble forward(e_i) or refuse",
  "C15-nonsmooth-objective-bfgs-stalls": "needs another solver for non-smooth posteriors, or raising when scipy reports failure",
  "C10-legacy-conjugate-no-structural-validation": "reusing the experimental validation would make the legacy sampler refuse exact-but-unusual forms it samples correctly today",
+ "C10-near-identity-probe-tolerance": "validation by numerical probing with np.allclose defaults; tightening it to math.isclose still admits eps=1e-12 (probing is the documented mechanism)",
+ "C10-near-reciprocal-probe-tolerance": "inherent to validation by numerical probing (rel 1e-9 at three points); measurable only at extreme scales",
+ "C10-legacy-conjugate-no-structural-validation-near": "same defect as C10-legacy-conjugate-no-structural-validation",
+ "C15-tiny-scale-bfgs-precision-loss": "_solve_max_point ignores the solver's success flag and BFGS settings are fixed; needs scaling-aware solver settings or raising on failure",
+ "C16-lm-absolute-damping-floor-small-residuals": "making nu0 relative changes every LM trajectory",
+ "C16-lm-sparse-singular-step-nan": "rejecting non-finite trials (tried) turns the NaN return into a stalled run to maxit; needs a proper singular-step strategy",
  "C12-samples-funvals-flag-ignored": "honouring is_par/is_vec of a Samples input changes behaviour of Model.__call__ on Samples",
  "C13-funvec-shape-stale-after-regrid": "invalidating the cached funvec_shape interacts with geometry equality (derived attribute compared in _all_values_equal)",
  "C13-step-empty-when-nsteps-is-ngrid-minus-1": "needs tolerance- or index-based interval membership; test_stepExpansion_fun2par compares with raw float inequalities",
